@@ -886,6 +886,30 @@ pub fn check_ftl(world: &World) -> Result<u64, (String, String)> {
 				));
 			}
 			n += 1;
+			// the same header inside a full block and a compact block message (what a peer relays):
+			// a header beyond the limit must be refused on every path, whatever else the body says
+			if !want_ok {
+				use grin_core::core::block::UntrustedBlock;
+				use grin_core::core::compact_block::UntrustedCompactBlock;
+				let mut b = world.blocks[world.winner()].block.clone();
+				b.header = h.clone();
+				// (commit-only inputs cannot be written at versions 1 and 2: those are skipped)
+				if let Ok(bytes) = ser::ser_vec(&b, ProtocolVersion(v)) {
+					let rb: Result<UntrustedBlock, _> = ser::deserialize(&mut &bytes[..], ProtocolVersion(v), ser::DeserializationMode::default());
+					if rb.is_ok() {
+						return Err(("future-time-limit".into(), format!("a full block whose header is stamped now{:+}s (limit {}s) was decoded at protocol version {}", off, ftl, v)));
+					}
+					n += 1;
+				}
+				let cb: grin_core::core::CompactBlock = b.clone().into();
+				if let Ok(bytes) = ser::ser_vec(&cb, ProtocolVersion(v)) {
+					let rc: Result<UntrustedCompactBlock, _> = ser::deserialize(&mut &bytes[..], ProtocolVersion(v), ser::DeserializationMode::default());
+					if rc.is_ok() {
+						return Err(("future-time-limit".into(), format!("a compact block whose header is stamped now{:+}s (limit {}s) was decoded at protocol version {}", off, ftl, v)));
+					}
+					n += 1;
+				}
+			}
 		}
 	}
 	Ok(n)
